@@ -83,6 +83,7 @@ struct T {
   int last_pass = -1;       // pass number of the latest callback
   int64_t script[kScript] = {0, 0, 0, 0};
   bool in_cb = false;
+  bool self_enabled_in_cb = false;   // enabled by its own callback that is still running
   // --- real side
   TimerEvent *ev = nullptr;          // direct mode
   TimerPool::TimerToken tok;         // pool mode
@@ -116,7 +117,8 @@ struct Ctx {
        c_heap_middle = false, c_reinit_self_cb = false,
        c_cleanup_cb = false, c_stale_old_life = false, c_stale_same_life = false, c_stale_cb = false, c_new_life_fired = false,
        c_cleanup_then_followup_cb = false, c_dawdle = false, c_enable_after_dawdle = false, c_due_within_pass = false, c_work = false,
-       c_iv_ge_2p32 = false, c_iv_2p31_2p32 = false, c_huge_fired = false;
+       c_iv_ge_2p32 = false, c_iv_2p31_2p32 = false, c_huge_fired = false,
+       c_sequence = false, c_oneshot_self_en_dis = false, c_persist_self_en_dis = false;
 
   Ctx(const Scenario &s, CaseInfo &i) : scn(s), info(i) {}
 
@@ -176,18 +178,19 @@ struct Ctx {
       if (x.ever_enabled) c_reenable = true;
       x.enabled = true; x.ever_enabled = true; x.t_enable = now(); x.deadline = now() + x.interval; x.fires = 0;
       if (cur_cb >= 0 && now() > pass_start) c_enable_after_dawdle = true;
+      if (cur_cb == x.id) x.self_enabled_in_cb = true;
       setWhy(x, "enabled");
     }
     x.ev->enable();
   }
   void opDisable(T &x) {
     if (use_pool) { opDestroy(x); return; }
-    if (x.enabled) { noteKill(x); setWhy(x, "disabled"); }
+    if (x.enabled) { noteKill(x); setWhy(x, "disabled"); if (cur_cb == x.id && x.self_enabled_in_cb) (x.oneshot ? c_oneshot_self_en_dis : c_persist_self_en_dis) = true; }
     x.enabled = false;
     x.ev->disable();
   }
   void opInit(T &x, uint64_t interval, bool oneshot) {   // direct mode only; initialize() leaves the timer disabled
-    if (x.enabled) { c_reinit_en = true; noteKill(x); }
+    if (x.enabled) { c_reinit_en = true; noteKill(x); if (cur_cb == x.id && x.self_enabled_in_cb) (x.oneshot ? c_oneshot_self_en_dis : c_persist_self_en_dis) = true; }
     x.enabled = false; x.interval = interval; x.oneshot = oneshot; noteInterval(interval);
     setWhy(x, "re-initialised (which disables)");
     x.ev->initialize(std::chrono::milliseconds(interval), oneshot ? Event::Mode::kOneshot : Event::Mode::kPersist);
@@ -309,7 +312,7 @@ struct Ctx {
       bool r = x.ev->isEnabled();
       if (r != x.enabled) { fail("inside the callback of " + desc(x) + " at " + u(n) + ": isEnabled() returns " + (r ? "true" : "false")); return; }
     }
-    cur_cb = id; x.in_cb = true;
+    cur_cb = id; x.in_cb = true; x.self_enabled_in_cb = false;
     int64_t sc = x.script[(x.total - 1) % kScript];
     if (!x.oneshot && pass_fires > kFireCap) { if (finale == 0) c_cap = true; sc = A_DIS_SELF; }
     action(x, sc);
@@ -328,6 +331,30 @@ struct Ctx {
     unsigned pre = (unsigned)((us >> 20) & 15) % 9, post = (unsigned)((us >> 24) & 15) % 9;   // 0 = none, 1..8 = kDawdle index + 1
     if (pre) dawdle(x, pre - 1);
     act2(x, act, sel, extra, niv, nshot);
+    // bits 28-39: up to three further steps of the SAME callback (a short sequence of actions on its own timer and on
+    // others), applied one after the other at the virtual time of each step
+    for (int i = 1; i <= 3 && err.empty(); ++i) {
+      unsigned nib = (unsigned)((us >> (24 + 4 * i)) & 15);
+      if (!nib) continue;
+      c_sequence = true;
+      unsigned sel_i = ((sel >> i) | (sel << (6 - i))) & 63, extra_i = (extra & ~7u) | ((extra + 3 * i) & 7);
+      uint64_t niv_i = (extra_i & 8) ? x.interval : (uint64_t)(((extra_i >> 5) & 31) == 31 ? kCbHuge : kCbIntervals)[extra_i & 7];
+      bool nshot_i = (i & 1) ? !nshot : nshot;
+      switch (nib) {
+        case 1: case 13: act2(x, A_EN_SELF, sel_i, extra_i, niv_i, nshot_i); break;
+        case 2: case 14: act2(x, A_DIS_SELF, sel_i, extra_i, niv_i, nshot_i); break;
+        case 3: case 15: act2(x, A_REINIT_SELF, sel_i & ~1u, extra_i, niv_i, nshot_i); break;   // initialize(new interval/mode), left disabled
+        case 4: act2(x, A_REINIT_SELF, sel_i | 1u, extra_i, niv_i, nshot_i); break;               // initialize + enable
+        case 5: act2(x, A_EN_OTHER, sel_i, extra_i, niv_i, nshot_i); break;
+        case 6: act2(x, A_DIS_OTHER, sel_i, extra_i, niv_i, nshot_i); break;
+        case 7: act2(x, A_REINIT_OTHER, sel_i, extra_i, niv_i, nshot_i); break;
+        case 8: act2(x, A_RESTART_OTHER, sel_i, extra_i, niv_i, nshot_i); break;
+        case 9: act2(x, A_DESTROY_OTHER, sel_i, extra_i, niv_i, nshot_i); break;
+        case 10: act2(x, A_REINIT_EN_OTHER, sel_i, extra_i, niv_i, nshot_i); break;
+        case 11: act2(x, A_NEW, sel_i, extra_i, niv_i, nshot_i); break;
+        default: if (!use_pool) { opDisable(x); opEnable(x); } break;                               // 12: restart self
+      }
+    }
     if (post) dawdle(x, post - 1);
   }
   // the callback of x works for a while: the monotonic clock moves on inside the loop pass
@@ -340,7 +367,7 @@ struct Ctx {
   void act2(T &x, int act, unsigned sel, unsigned extra, uint64_t niv, bool nshot) {
     if (use_pool) {   // TimerPool offers only create and cancel
       switch (act) {
-        case A_DIS_SELF: case A_REINIT_SELF: if (!x.oneshot) c_dis_self_persist = true; opDestroy(x); break;
+        case A_DIS_SELF: case A_REINIT_SELF: if (!x.alive) break; if (!x.oneshot) c_dis_self_persist = true; opDestroy(x); break;
         case A_DIS_OTHER: case A_DESTROY_OTHER: case A_RESTART_OTHER: if (T *y = pickOther(x, sel, 0)) { c_destroy_cb = true; opDestroy(*y); } break;
         case A_CANCEL_STALE: opCancelStale((int64_t)(sel >> 1) * ((sel & 1) ? -1 : 1) - (sel & 1)); break;   // sel even: from the oldest, odd: from the newest
         case A_CLEANUP:   // cleanup() from inside a task, optionally followed by follow-up tasks on the same pool
@@ -539,6 +566,9 @@ struct Ctx {
     info.cls_if(cb_total == 0, "no_callback_at_all");
     info.cls_if(cb_total >= 20, "callbacks>=20");
     info.cls_if(c_grace, "needed_extra_pass");
+    info.cls_if(c_sequence, "callback_performs_a_sequence_of_actions");
+    info.cls_if(c_oneshot_self_en_dis, "one-shot_enabled_then_disabled_or_reinitialised_in_its_own_callback");
+    info.cls_if(c_persist_self_en_dis, "persistent_re-enabled_then_disabled_or_reinitialised_in_its_own_callback");
     info.cls_if(c_iv_ge_2p32, "interval>=2^32ms");
     info.cls_if(c_iv_2p31_2p32, "interval_in_[2^31,2^32)ms");
     info.cls_if(c_huge_fired, "timer_with_interval>=2^31ms_fired");
@@ -628,15 +658,22 @@ Scenario expand(int64_t seed, int size) {
   for (int i = 0; i < npal; ++i) pal[i] = fresh(mag);
   if (hugecase && rng(0, 1)) pal[rng(0, npal - 1)] = hugeIv();
   auto iv = [&]() -> int64_t { if (hugecase && rng(0, 9) < 3) return hugeIv(); return rng(0, 9) < 7 ? pal[rng(0, npal - 1)] : fresh(mag); };
+  bool seqcase = rng(0, 2) == 0;    // a third of the cases: callbacks that perform a sequence of 2-4 actions
   bool slowcase = rng(0, 2) == 0;   // a third of the cases: callbacks that take time (the clock moves on inside a loop pass)
   auto script = [&]() -> int64_t {
     int64_t act = pick({{8, A_NONE}, {2, A_DIS_SELF}, {4, A_DIS_OTHER}, {2, A_EN_OTHER}, {2, A_REINIT_OTHER}, {3, A_DESTROY_OTHER}, {2, A_NEW}, {2, A_EN_SELF}, {2, A_REINIT_EN_OTHER}, {2, A_RESTART_OTHER}, {2, A_REINIT_SELF}, {pool ? 2 : 0, A_CANCEL_STALE}, {pool ? 1 : 0, A_CLEANUP}});
     int64_t slow = 0;   // bits 20-23: the callback takes time before its action, bits 24-27: after it
     if (slowcase && rng(0, 1)) slow = (rng(0, 2) ? rng(1, 8) : 0) * (1 << 20) + (rng(0, 2) == 0 ? rng(1, 8) : 0) * (1 << 24);
-    if (act == A_NONE && !slow) return 0;
+    int64_t steps = 0;   // bits 28-39: further steps of the same callback
+    if (seqcase && rng(0, 9) < 6) {
+      if (rng(0, 9) < 4) act = pick({{3, A_EN_SELF}, {2, A_REINIT_SELF}, {1, A_DIS_SELF}});   // sequences that start on the own timer
+      int ns = (int)pick({{3, 1}, {2, 2}, {1, 3}});
+      for (int i = 0; i < ns; ++i) steps |= pick({{4, 1}, {5, 2}, {4, 3}, {4, 4}, {2, 5}, {2, 6}, {2, 7}, {1, 8}, {1, 9}, {1, 10}, {1, 11}, {2, 12}}) << (28 + 4 * i);
+    }
+    if (act == A_NONE && !slow && !steps) return 0;
     int64_t extra = rng(0, 1023);
     if (hugecase && rng(0, 9) < 3) extra |= 31 << 5; else if (((extra >> 5) & 31) == 31) extra &= ~(1 << 5);   // huge callback intervals only in huge cases
-    return act + 16 * rng(0, 63) + 1024 * extra + slow;
+    return act + 16 * rng(0, 63) + 1024 * extra + slow + steps;
   };
   bool quiet = rng(0, 5) == 0;   // a sixth of the cases: no scripts at all (pure outside-callback histories)
   auto mkNew = [&]() { mk(NEW, {iv(), pick({{3, 0}, {2, 1}}), quiet ? 0 : script(), quiet ? 0 : script(), quiet ? 0 : script(), quiet ? 0 : script()}); };
